@@ -59,7 +59,7 @@ MANIFEST = {
         "design_ref": "DESIGN.md 3/C03",
     }
 }
-PROPS = ["Nstd.Seq.Props", "Nstd.Seq.PropsSort", "Nstd.Seq.PropsAlias", "Nstd.Seq.PropsHeap", "Nstd.Seq.PropsLink", "Nstd.Seq.PropsSortG"]
+PROPS = ["Nstd.Seq.Props", "Nstd.Seq.PropsSort", "Nstd.Seq.PropsAlias", "Nstd.Seq.PropsHeap", "Nstd.Seq.PropsLink", "Nstd.Seq.PropsSortG", "Nstd.Seq.PropsArr"]
 LEAN_TARGETS = PROPS + ["drv_seq"]
 DRIVER = "drv_seq"
 
@@ -211,10 +211,26 @@ def translate_link(repo=None):
         return False, "tools/gen_seq.py: " + str(e)
 
 
+GEN_ARR = C.LEAN / "Nstd" / "Generated" / "SeqArr.lean"
+
+
+def translate_arr(repo=None):
+    """(ok, message): the bodies of the Array member functions with loops (reserve growth loop, reserve(size, ref), resize,
+    clear, append(value), append(values, n), remove(index), remove(iterator)) of the CURRENT header ->
+    lean/Nstd/Generated/SeqArr.lean (tools/gen_seq.py, part 2); a shape outside the understood subset is refused"""
+    try:
+        return True, "Array loops translated: " + gen_seq.generate_array(repo or C.REPO, GEN_ARR)
+    except gen_seq.Refuse as e:
+        return False, "tools/gen_seq.py refuses the current Array code (broken tie): " + str(e)
+    except OSError as e:
+        return False, "tools/gen_seq.py: " + str(e)
+
+
 def gen(ctx):
     ok, msg = translate()
-    ok2, msg2 = translate_link()
-    ok, msg = ok and ok2, msg + "; " + msg2
+    for f in (translate_link, translate_arr):
+        ok2, msg2 = f()
+        ok, msg = ok and ok2, msg + "; " + msg2
     if ctx is not None:
         ctx.cov.setdefault("translated", msg)
         ctx.log("translator: " + msg)
@@ -225,9 +241,10 @@ def setup():
     ok, msg = translate()
     if not ok:
         print("seq translate:", msg)
-    ok, msg = translate_link()
-    if not ok:
-        print("seq translate:", msg)
+    for f in (translate_link, translate_arr):
+        ok, msg = f()
+        if not ok:
+            print("seq translate:", msg)
 
 
 # ---- reference (plain Python lists; independent of the Lean model) -------------------------------
